@@ -1,3 +1,12 @@
 import sys
 from .cli import main
-sys.exit(main())
+try:
+    code = main()
+except SystemExit:
+    raise
+except BaseException as e:                 # a crash of the checker is an engine error (exit 3), never a verdict
+    import traceback
+    traceback.print_exc()
+    print("ENGINE ERROR: the checker itself failed (%s: %s); no verdict" % (type(e).__name__, e))
+    code = 3
+sys.exit(code)
